@@ -64,6 +64,8 @@ class World:
                                     existence_status=sp['exist'], is_viable=sp['viable'],
                                     is_necessary=sp['necessary'], mitre_info=sp['mitre'],
                                     tags=list(sp['tags']), extras=copy.deepcopy(sp['extras']))
+                # generation keeps the step's attribute dictionary on the node; its tags / ttc are the node's own objects
+                n.attributes = {'name': sp['name'], 'type': sp['type'], 'tags': n.tags, 'ttc': n.ttc}
                 self.nodes.append(n)
             elif k == 'add_node':
                 self.graph.add_node(self.nodes[op[1]], node_id=op[2])
@@ -200,8 +202,8 @@ class World:
                 if id(v) in seen and seen[id(v)][0] != i:
                     out.append([seen[id(v)][0], seen[id(v)][1], i, f])
                 seen.setdefault(id(v), (i, f))
-            for f in ('tags', 'extras', 'ttc'):
-                walk(getattr(n, f), i, f)
+            for f in ('tags', 'extras', 'ttc', 'attributes'):
+                walk(getattr(n, f, None), i, f)
         return out
 
 
